@@ -117,7 +117,7 @@ CHECKS["C08"] = _e("model_checking",
     "DataShard.tla with a CAS backend under a lock that grants everyone and under a lease lock (takeover once the lease lapsed while the old holder is paused and still believes it holds it; heartbeats; the non-atomic release as a named deviation); a pointer write delayed in flight = the writer paused immediately before the conditional PUT. TLC explores all interleavings of 2-3 committers with clock ticks at every point checking Serializable, AckedOnce, FlipReplacesValidated, LostLockNeverAcks; companions that must fail: the CAS keyed to an unvalidated second pointer read, and the grant-all lock without CAS. Binding: the real MetadataManager.commit and S3LockProvider on an in-memory S3 (content-hash ETags, conditional PUT semantics) under the baton scheduler: every single-pause schedule, a lease lapse inserted at every scheduling point, seeded multi-pause schedules with heartbeats; the trace records which pointer read the If-Match of the conditional PUT came from and TLC requires it to be the validated one.",
     "DESIGN.md 6/C08",
     "Trusted: as C01 plus the in-memory S3's fidelity (strong consistency, MD5 ETags, AWS conditional-PUT semantics). The lease lock is abstracted to holder + last-renewal time here (request-level protocol: C19).",
-    "TLA+ protocol spec (CAS backend, grant-all and lease locks) model-checked by TLC; trace validation of real scheduled executions on an in-memory S3")
+    "TLA+ protocol spec (CAS backend, grant-all and lease locks) model-checked by TLC; trace validation of real scheduled executions on an in-memory S3 (pauses, lease lapses, takeovers, never-landed request failures after a rival's commit)")
 CHECKS["C12"] = _e("model_checking",
     "FilterSel.tla (on Filter.tla's three-valued reference semantics): transcriptions of the filter parser (every operator spelling, malformed shapes), of the compute-expression builder as a three-valued evaluator, and of every read program (scan verify on/off, parallel, scan_batches, iter_records) incl. where parsing/building happens relative to early returns; TLC proves EngineMatchesReference, ParserConforms, ApiConforms over table layouts (1-3 files, NULL, NaN, empty files, empty table) x filters (conjunctions, between, empty/NULL-containing sets, null operators, malformed classes) x projections and exports the cases; pre-repair variants (statistics pushdown in the non-verifying scan; validation after early returns) must fail. Every exported case is concretised for all column types and run through every read API and option; all must equal the reference multiset and each other; malformed filters must raise in every API.",
     "DESIGN.md 6/C12; notes/C12.md",
@@ -139,7 +139,7 @@ CHECKS["C19"] = _e("model_checking",
     "S3Lock.tla: the conditional-write S3 lock at the granularity one request / one deciding clock read / one sleep = one action (create If-None-Match, HEAD + age check + takeover PUT If-Match, renewal by a separate heartbeat actor, is_held GET with its NoSuchKey retry, release GET + DELETE), ETag as a function of the body, repairs behind flags probed on the code under test; FLock.tla: FileLock at syscall granularity on a kernel model (directory entry, inode, open descriptions, flock table keyed by inode, close/process death release). Reference rules judged on interface events only: TakeoverOnlyAfterLapse, ReleaseDeletesOnlyOwn, HolderStable, SupersededObserves, AcquireMeansOwner, TimeoutHonoured, AtMostOneBeliever; MutualExclusion, DeathReleases, NoUnlinkRace. TLC explores 2-3 clients with clock ticks everywhere (must-fail companions: unlink on release, blocking flock, O_EXCL stale break, each S3 flag alone). Binding: real S3LockProvider instances on an in-memory S3 and real FileLock instances under the baton scheduler with a virtual clock, one scheduler decision = one spec action; systematic pause/lapse/heartbeat schedules, TLC counterexamples and simulated behaviours replayed, seeded random walks; each trace validated by TLC (strict conformance, then reference rules); plus real multi-process stress logs (loop, kill, block) validated by TLC.",
     "DESIGN.md 6/C19; notes/C19.md",
     "Open known finding: the S3 release is GET-compare-then-unconditional-DELETE, a stalled release deletes the next holder's lock object. No transport faults on lock requests; one clock for clients and S3; S3PollingLockProvider not claimed; stress experiments are probabilistic (the deterministic thread binding guarantees detection).",
-    "TLA+ lock specs (S3 request level, flock syscall level) model-checked by TLC; trace validation of real scheduled lock executions and of real multi-process logs")
+    "TLA+ lock specs (S3 request level, flock syscall level) model-checked by TLC (safety invariants; liveness 'every call returns' under weak fairness with must-fail companions); trace validation of real scheduled lock executions and of real multi-process logs")
 
 NOT_YET: dict = {}
 
